@@ -274,4 +274,103 @@ theorem sound_float_roundtrip (t : Model.XmlDir.TempoVal) (h : Model.XmlDir.Well
   rw [C03.Dir.sound_roundtrip t h]
   simp [readFloat_of_close d hn _ hc]
 
+/-! ### exponent notation -/
+
+section Sci
+open Model.XmlNote Model.XmlDir C03.Text C03.Dir
+
+theorem parseTempo_text (t : TempoVal) (h : WellFormedTempo t) : parseTempo (tempoText t) = some t := by
+  have := C03.Dir.sound_roundtrip t h
+  unfold readSound writeSound at this
+  simp only [Xml.get, Xml.attrs, Model.lookup, if_true] at this
+  cases hp : parseTempo (tempoText t) with
+  | none => rw [hp] at this; simp at this
+  | some u => rw [hp] at this; simp at this; rw [this]
+
+theorem isDigit_ne_e (c : Char) (h : c.isDigit = true) : (c != 'e') = true := by
+  have : c ≠ 'e' := by intro e; subst e; revert h; decide
+  simpa using this
+
+theorem tempoText_no_e (t : TempoVal) (h : WellFormedTempo t) : ∀ c ∈ tempoText t, (c != 'e') = true := by
+  intro c hc
+  cases t with
+  | whole n => exact isDigit_ne_e c (natDigits_isDigit n c hc)
+  | dec ip fp =>
+    obtain ⟨_, hdig, _⟩ := h
+    simp only [tempoText, List.mem_append, List.mem_cons] at hc
+    rcases hc with hc | hc | hc
+    · exact isDigit_ne_e c (natDigits_isDigit ip c hc)
+    · subst hc; decide
+    · exact isDigit_ne_e c (List.all_eq_true.mp hdig c hc)
+
+theorem allDigits_expDigits (n : Nat) : allDigits (expDigits n) = true := by
+  unfold expDigits
+  split
+  · have := allDigits_natDigits n
+    unfold allDigits at this ⊢
+    simp only [Bool.and_eq_true] at this ⊢
+    refine ⟨by simp, ?_⟩
+    simp only [List.all_cons, Bool.and_eq_true]
+    exact ⟨by decide, this.2⟩
+  · exact allDigits_natDigits n
+
+theorem digitsToNat_expDigits (n : Nat) : digitsToNat (expDigits n) = n := by
+  unfold expDigits
+  split
+  · have := Digits.digitsToNat_natDigits n
+    unfold digitsToNat at this ⊢
+    simpa [List.foldl_cons] using this
+  · exact Digits.digitsToNat_natDigits n
+
+theorem expDigits_head (n : Nat) : ∃ c r, expDigits n = c :: r ∧ c.isDigit = true := by
+  have h := allDigits_expDigits n
+  unfold allDigits at h
+  cases he : expDigits n with
+  | nil => rw [he] at h; simp at h
+  | cons c r =>
+    rw [he] at h
+    simp only [Bool.and_eq_true, List.all_cons] at h
+    exact ⟨c, r, rfl, h.2.1⟩
+
+theorem dropWhile_all {α : Type} (p : α → Bool) (l : List α) (h : ∀ x ∈ l, p x = true) : l.dropWhile p = [] := by
+  induction l with
+  | nil => rfl
+  | cons b l ih =>
+    simp only [List.dropWhile_cons, h b (by simp), if_true]
+    exact ih fun x hx => h x (List.mem_cons_of_mem _ hx)
+
+/-- the float literal written (plain, or mantissa and exponent) is parsed into the same mantissa and exponent -/
+theorem sci_roundtrip (t : TempoVal) (h : WellFormedTempo t) (ex : Int) : parseSci (sciText t ex) = some (t, ex) := by
+  have hno := tempoText_no_e t h
+  unfold parseSci sciText
+  by_cases h0 : ex = 0
+  · subst h0
+    simp only [if_true]
+    rw [takeWhile_all _ _ hno]
+    rw [dropWhile_all _ _ hno]
+    simp [parseTempo_text t h]
+  · simp only [h0, if_false]
+    have he : (fun (c : Char) => c != 'e') 'e' = false := by decide
+    rw [takeWhile_stop _ _ _ _ hno he, dropWhile_stop _ _ _ _ hno he]
+    simp only [parseTempo_text t h]
+    have hex : parseExp ((if ex < 0 then '-' else '+') :: expDigits ex.natAbs) = some ex := by
+      unfold parseExp
+      by_cases hneg : ex < 0
+      · simp only [hneg, if_true, allDigits_expDigits, digitsToNat_expDigits]
+        congr 1; omega
+      · have : ('+' : Char) ≠ '-' := by decide
+        simp only [hneg, if_false, this, if_true, allDigits_expDigits, digitsToNat_expDigits]
+        congr 1; omega
+    rw [hex]
+
+/-- `_handle_sound` down to the number, exponent notation included -/
+theorem sound_num_roundtrip (t : TempoVal) (h : WellFormedTempo t) (ex : Int) (d : Dbl) (hn : d.Normal)
+    (hc : closeTo d (sciValue (t, ex)) = true) : readSoundNum (writeSoundSci t ex) = some (some d) := by
+  unfold readSoundNum writeSoundSci
+  simp only [Xml.get, Xml.attrs, Model.lookup, if_true]
+  rw [sci_roundtrip t h ex]
+  simp [readFloat_of_close d hn _ hc]
+
+end Sci
+
 end C03.Float
